@@ -22,7 +22,7 @@ var expectedReach = map[string][]string{
 	"C15": {"sender-aborted-on-tampering", "honest-accepted", "accepted-with-intact-correlation(unselected column or padding row or response-only)"},
 	"C06": {"kind.CO", "kind.RSA-1024", "kind.COT", "kind.COT-malicious", "kind.ROT", "kind.ROT-malicious", "batch.n%8!=0", "batch.n%64!=0,n>64", "batch.multi-chunk", "batch.repeated-on-one-instance"},
 	"C16": {"outcome.garbler-error", "outcome.session-stalled", "outcome.garbler-correct-despite-corruption", "mode.whole-circuit", "mode.streaming"},
-	"C02": {"pipe.short-reads", "pipe.writer-blocked", "pipe.one-byte-reads", "ot.CO", "ot.COT", "ot.COT-malicious", "ot.RSA-1024", "circuit.multi-output"},
+	"C02": {"pipe.short-reads", "pipe.writer-blocked", "pipe.one-byte-reads", "ot.CO", "ot.COT", "ot.COT-malicious", "ot.RSA-1024", "circuit.multi-output", "circuit.compiled-from-mpcl"},
 	"C19": {"net.data-before-accept", "net.backlog>1", "mutex.contended", "cond.wakeup"},
 	"C11": {"pipe.short-reads", "pipe.writer-blocked", "pipe.reader-blocked", "pipe.one-byte-reads"},
 }
